@@ -460,4 +460,530 @@ theorem rect_branches_agree (r : Rect) (p : Pt) (ε : Rat) (hu : r.c * r.c + r.s
     · rintro ⟨h1, h2, h3, h4⟩
       exact ⟨rect_keep_of_inside r p hu ⟨h1.le, h2.le⟩ ⟨h3.le, h4.le⟩, ⟨h1.le, h2.le⟩, h3.le, h4.le⟩
 
+/-! ### Ellipse -/
+
+theorem ell_loc_fst (e : Ellipse) (p : Pt) : (e.loc p).1 = e.c * (p.1 - e.xc) + e.s * (p.2 - e.yc) := rfl
+theorem ell_loc_snd (e : Ellipse) (p : Pt) : (e.loc p).2 = -e.s * (p.1 - e.xc) + e.c * (p.2 - e.yc) := rfl
+
+theorem ell_keep_iff (e : Ellipse) (p : Pt) :
+    e.keep p = true ↔ (e.xc - rmax e.rx e.ry ≤ p.1 ∧ p.1 ≤ e.xc + rmax e.rx e.ry ∧
+      e.yc - rmax e.rx e.ry ≤ p.2 ∧ p.2 ≤ e.yc + rmax e.rx e.ry) := by
+  simp only [Ellipse.keep, Bool.and_eq_true, decide_eq_true_eq, and_assoc]
+
+/-- **The square `bounds()` never drops a point of the rotated ellipse.** -/
+theorem ell_keep_of_inside (e : Ellipse) (p : Pt) (hu : e.c * e.c + e.s * e.s = 1)
+    (hrx : 0 < e.rx) (hry : 0 < e.ry)
+    (h : ellF (e.loc p).1 (e.loc p).2 e.rx e.ry < 1) : e.keep p = true := by
+  have hR := ellipse_in_disc hrx hry (le_rmax_left e.rx e.ry) (le_rmax_right e.rx e.ry) h
+  rw [ell_loc_fst, ell_loc_snd, unrot_norm hu] at hR
+  have hR0 : 0 ≤ rmax e.rx e.ry := le_trans hrx.le (le_rmax_left _ _)
+  have hx : (p.1 - e.xc) * (p.1 - e.xc) < rmax e.rx e.ry * rmax e.rx e.ry := by
+    nlinarith [mul_self_nonneg (p.2 - e.yc)]
+  have hy : (p.2 - e.yc) * (p.2 - e.yc) < rmax e.rx e.ry * rmax e.rx e.ry := by
+    nlinarith [mul_self_nonneg (p.1 - e.xc)]
+  obtain ⟨x1, x2⟩ := abs_lt_of_sq_lt hR0 hx
+  obtain ⟨y1, y2⟩ := abs_lt_of_sq_lt hR0 hy
+  rw [ell_keep_iff]
+  exact ⟨by linarith, by linarith, by linarith, by linarith⟩
+
+/-- **`ellipse_branches_agree`** — for exact quarter turns in the two special branches and for any
+unit rotation in the general branch the coded test is the geometric definition, at every point. -/
+theorem ellipse_branches_agree (e : Ellipse) (p : Pt) (hu : e.c * e.c + e.s * e.s = 1)
+    (hrx : 0 < e.rx) (hry : 0 < e.ry)
+    (hax : branchOf e.c e.s = .axis → e.s = 0) (hq : branchOf e.c e.s = .quarter → e.c = 0) :
+    Impl.ellipseContains e p = Spec.ellipseContains e p := by
+  have h0 : ¬ (e.rx = 0 ∨ e.ry = 0) := by
+    rintro (h | h) <;> linarith
+  simp only [Impl.ellipseContains, Spec.ellipseContains, h0, if_false]
+  cases hb : branchOf e.c e.s with
+  | axis =>
+    have hs := hax hb
+    have hc : e.c * e.c = 1 := by rw [hs] at hu; linarith
+    simp only [ell_loc_fst, ell_loc_snd, hs, ellF]
+    congr 2
+    have e1 : (e.c * (p.1 - e.xc) + 0 * (p.2 - e.yc)) * (e.c * (p.1 - e.xc) + 0 * (p.2 - e.yc))
+        = (e.c * e.c) * ((p.1 - e.xc) * (p.1 - e.xc)) := by ring
+    have e2 : (-0 * (p.1 - e.xc) + e.c * (p.2 - e.yc)) * (-0 * (p.1 - e.xc) + e.c * (p.2 - e.yc))
+        = (e.c * e.c) * ((p.2 - e.yc) * (p.2 - e.yc)) := by ring
+    rw [e1, e2, hc, one_mul, one_mul]
+  | quarter =>
+    have hc := hq hb
+    have hs : e.s * e.s = 1 := by rw [hc] at hu; linarith
+    simp only [ell_loc_fst, ell_loc_snd, hc, ellF]
+    congr 2
+    have e1 : (0 * (p.1 - e.xc) + e.s * (p.2 - e.yc)) * (0 * (p.1 - e.xc) + e.s * (p.2 - e.yc))
+        = (e.s * e.s) * ((p.2 - e.yc) * (p.2 - e.yc)) := by ring
+    have e2 : (-e.s * (p.1 - e.xc) + 0 * (p.2 - e.yc)) * (-e.s * (p.1 - e.xc) + 0 * (p.2 - e.yc))
+        = (e.s * e.s) * ((p.1 - e.xc) * (p.1 - e.xc)) := by ring
+    rw [e1, e2, hs, one_mul, one_mul, add_comm]
+  | general =>
+    simp only
+    rw [Bool.eq_iff_iff, Bool.and_eq_true, decide_eq_true_eq]
+    constructor
+    · exact fun h => h.2
+    · exact fun h => ⟨ell_keep_of_inside e p hu hrx hry h, h⟩
+
+/-! ### Circle, annulus, range -/
+
+theorem circle_iff (c : Circle) (p : Pt) :
+    Impl.circleContains c p = true ↔ dist2 c.xc c.yc p < c.r * c.r := by
+  simp only [Impl.circleContains, decide_eq_true_eq]
+
+theorem annulus_iff (a : Annulus) (p : Pt) :
+    Impl.annulusContains a p = true ↔ (a.rin * a.rin ≤ dist2 a.xc a.yc p ∧ dist2 a.xc a.yc p < a.rout * a.rout) := by
+  simp only [Impl.annulusContains, Bool.and_eq_true, decide_eq_true_eq]
+
+theorem annulus_defined_iff (a : Annulus) : a.defined = true ↔ (0 < a.rin ∧ a.rin < a.rout) := by
+  simp only [Annulus.defined, Bool.and_eq_true, decide_eq_true_eq]
+
+theorem range_iff (r : Range) (p : Pt) :
+    Impl.rangeContains r p = true ↔
+      (r.lo < (if r.isX then p.1 else p.2) ∧ (if r.isX then p.1 else p.2) < r.hi) := by
+  simp only [Impl.rangeContains, Bool.and_eq_true, decide_eq_true_eq]
+
+/-! ### `move_to`: rectangle -/
+
+/-- The rectangle translated by `d` (what `move_to` produces for `d = target − center`). -/
+def rectShift (r : Rect) (d : Pt) : Rect :=
+  { r with xmin := r.xmin + d.1, xmax := r.xmax + d.1, ymin := r.ymin + d.2, ymax := r.ymax + d.2 }
+
+theorem rectShift_width (r : Rect) (d : Pt) : (rectShift r d).width = r.width := by
+  simp only [rectShift, Rect.width]; ring
+theorem rectShift_height (r : Rect) (d : Pt) : (rectShift r d).height = r.height := by
+  simp only [rectShift, Rect.height]; ring
+theorem rectShift_center (r : Rect) (d : Pt) :
+    (rectShift r d).center = (r.center.1 + d.1, r.center.2 + d.2) := by
+  have hw := rectShift_width r d
+  have hh := rectShift_height r d
+  simp only [Rect.center, hw, hh]
+  simp only [rectShift]
+  ext <;> simp <;> ring
+theorem rectShift_loc (r : Rect) (d p : Pt) :
+    (rectShift r d).loc p = r.loc (p.1 - d.1, p.2 - d.2) := by
+  simp only [Rect.loc, rectShift_center]
+  have e1 : p.1 - (r.center.1 + d.1) = p.1 - d.1 - r.center.1 := by ring
+  have e2 : p.2 - (r.center.2 + d.2) = p.2 - d.2 - r.center.2 := by ring
+  rw [e1, e2]
+  rfl
+theorem rectShift_corner (r : Rect) (d : Pt) (a b : Rat) :
+    (rectShift r d).corner a b = ((r.corner a b).1 + d.1, (r.corner a b).2 + d.2) := by
+  simp only [Rect.corner, rectShift_center]
+  have hc : (rectShift r d).c = r.c := rfl
+  have hs : (rectShift r d).s = r.s := rfl
+  rw [hc, hs]
+  ext <;> simp <;> ring
+theorem rectShift_bbox (r : Rect) (d : Pt) :
+    (rectShift r d).bbox = (r.bxmin + d.1, r.bxmax + d.1, r.bymin + d.2, r.bymax + d.2) := by
+  simp only [Rect.bbox, Rect.bxmin, Rect.bxmax, Rect.bymin, Rect.bymax, rectShift_corner,
+    rectShift_width, rectShift_height, rmin_add, rmax_add]
+theorem rectShift_keep (r : Rect) (d p : Pt) :
+    (rectShift r d).keep p = r.keep (p.1 - d.1, p.2 - d.2) := by
+  rw [Bool.eq_iff_iff]
+  simp only [Rect.keep, inBox_iff]
+  rw [rectShift_bbox]
+  simp only [Rect.bbox]
+  constructor
+  · rintro ⟨h1, h2, h3, h4⟩
+    exact ⟨by linarith, by linarith, by linarith, by linarith⟩
+  · rintro ⟨h1, h2, h3, h4⟩
+    exact ⟨by linarith, by linarith, by linarith, by linarith⟩
+
+theorem rectShift_contains (r : Rect) (d p : Pt) :
+    Impl.rectContains (rectShift r d) p = Impl.rectContains r (p.1 - d.1, p.2 - d.2) := by
+  have hc : (rectShift r d).c = r.c := rfl
+  have hs : (rectShift r d).s = r.s := rfl
+  rw [Bool.eq_iff_iff]
+  cases hb : branchOf r.c r.s with
+  | axis =>
+    have hb' : branchOf (rectShift r d).c (rectShift r d).s = .axis := by rw [hc, hs]; exact hb
+    rw [impl_rect_axis_iff _ _ hb', impl_rect_axis_iff _ _ hb, rectShift_width, rectShift_height,
+      rectShift_center]
+    constructor
+    · rintro ⟨h1, h2, h3, h4⟩
+      exact ⟨by linarith, by linarith, by linarith, by linarith⟩
+    · rintro ⟨h1, h2, h3, h4⟩
+      exact ⟨by linarith, by linarith, by linarith, by linarith⟩
+  | quarter =>
+    have hb' : branchOf (rectShift r d).c (rectShift r d).s = .quarter := by rw [hc, hs]; exact hb
+    rw [impl_rect_quarter_iff _ _ hb', impl_rect_quarter_iff _ _ hb, rectShift_width, rectShift_height,
+      rectShift_center]
+    constructor
+    · rintro ⟨h1, h2, h3, h4⟩
+      exact ⟨by linarith, by linarith, by linarith, by linarith⟩
+    · rintro ⟨h1, h2, h3, h4⟩
+      exact ⟨by linarith, by linarith, by linarith, by linarith⟩
+  | general =>
+    have hb' : branchOf (rectShift r d).c (rectShift r d).s = .general := by rw [hc, hs]; exact hb
+    rw [impl_rect_general_iff _ _ hb', impl_rect_general_iff _ _ hb, rectShift_width, rectShift_height,
+      rectShift_loc, rectShift_keep]
+
+theorem rectShift_spec (r : Rect) (d p : Pt) :
+    Spec.rectContains (rectShift r d) p = Spec.rectContains r (p.1 - d.1, p.2 - d.2) := by
+  simp only [Spec.rectContains, rectShift_loc, rectShift_width, rectShift_height]
+
+theorem rectShift_near (r : Rect) (d p : Pt) (ε : Rat) :
+    (rectShift r d).near p ε = r.near (p.1 - d.1, p.2 - d.2) ε := by
+  simp only [Rect.near, rectShift_loc, rectShift_width, rectShift_height]
+
+theorem rect_moveTo_eq (r : Rect) (t : Pt) :
+    (Roi.rect r).moveTo t = .rect (rectShift r (t.1 - r.center.1, t.2 - r.center.2)) := rfl
+
+/-! ### Polygon: translation -/
+
+/-- Translate a point. -/
+def shiftPt (d : Pt) (v : Pt) : Pt := (v.1 + d.1, v.2 + d.2)
+
+theorem edgeCross_congr {p a b p' a' b' : Pt} (h1 : p.2 ≤ a.2 ↔ p'.2 ≤ a'.2) (h2 : p.2 ≤ b.2 ↔ p'.2 ≤ b'.2)
+    (h3 : (b.1 - p.1) * (a.2 - b.2) ≤ (b.2 - p.2) * (a.1 - b.1) ↔
+      (b'.1 - p'.1) * (a'.2 - b'.2) ≤ (b'.2 - p'.2) * (a'.1 - b'.1)) :
+    edgeCross p a b = edgeCross p' a' b' := by
+  unfold edgeCross
+  rw [decide_eq_decide.mpr h1, decide_eq_decide.mpr h2, decide_eq_decide.mpr h3]
+
+theorem edgeCross_shift (d p a b : Pt) :
+    edgeCross p (shiftPt d a) (shiftPt d b) = edgeCross (p.1 - d.1, p.2 - d.2) a b := by
+  apply edgeCross_congr
+  · simp only [shiftPt]; constructor <;> intro h <;> linarith
+  · simp only [shiftPt]; constructor <;> intro h <;> linarith
+  · simp only [shiftPt]
+    have e3 : (b.1 + d.1 - p.1) * (a.2 + d.2 - (b.2 + d.2)) = (b.1 - (p.1 - d.1)) * (a.2 - b.2) := by ring
+    have e4 : (b.2 + d.2 - p.2) * (a.1 + d.1 - (b.1 + d.1)) = (b.2 - (p.2 - d.2)) * (a.1 - b.1) := by ring
+    rw [e3, e4]
+
+theorem crossPath_shift (d p : Pt) (a : Pt) (vs : List Pt) :
+    crossPath p (shiftPt d a) (vs.map (shiftPt d)) = crossPath (p.1 - d.1, p.2 - d.2) a vs := by
+  induction vs generalizing a with
+  | nil => rfl
+  | cons b rest ih =>
+    simp only [List.map_cons, crossPath, edgeCross_shift, ih]
+
+/-- **`polygon_translate`**: the even-odd test commutes with translations. -/
+theorem crossParity_shift (d p : Pt) (vs : List Pt) :
+    crossParity (vs.map (shiftPt d)) p = crossParity vs (p.1 - d.1, p.2 - d.2) := by
+  cases vs with
+  | nil => rfl
+  | cons v rest =>
+    simp only [crossParity, List.map_cons]
+    have : List.map (shiftPt d) rest ++ [shiftPt d v] = (rest ++ [v]).map (shiftPt d) := by simp
+    rw [this, crossPath_shift]
+
+theorem minList_shift (d x : Rat) (xs : List Rat) :
+    minList (x + d) (xs.map (· + d)) = minList x xs + d := by
+  induction xs generalizing x with
+  | nil => rfl
+  | cons y rest ih =>
+    simp only [minList, List.map_cons, List.foldl_cons, rmin_add] at ih ⊢
+    exact ih (rmin x y)
+
+theorem maxList_shift (d x : Rat) (xs : List Rat) :
+    maxList (x + d) (xs.map (· + d)) = maxList x xs + d := by
+  induction xs generalizing x with
+  | nil => rfl
+  | cons y rest ih =>
+    simp only [maxList, List.map_cons, List.foldl_cons, rmax_add] at ih ⊢
+    exact ih (rmax x y)
+
+theorem polyKeep_shift (d p : Pt) (vs : List Pt) :
+    polyKeep (vs.map (shiftPt d)) p = polyKeep vs (p.1 - d.1, p.2 - d.2) := by
+  cases vs with
+  | nil => rfl
+  | cons v rest =>
+    rw [Bool.eq_iff_iff]
+    simp only [polyKeep, polyBBox, List.map_cons, inBox_iff, List.map_map]
+    have e1 : (fun x : Pt => x.1) ∘ shiftPt d = (· + d.1) ∘ (fun x : Pt => x.1) := by
+      funext x; rfl
+    have e2 : (fun x : Pt => x.2) ∘ shiftPt d = (· + d.2) ∘ (fun x : Pt => x.2) := by
+      funext x; rfl
+    have s1 : (shiftPt d v).1 = v.1 + d.1 := rfl
+    have s2 : (shiftPt d v).2 = v.2 + d.2 := rfl
+    rw [e1, e2, s1, s2, ← List.map_map, ← List.map_map, minList_shift, maxList_shift, minList_shift, maxList_shift]
+    constructor
+    · rintro ⟨h1, h2, h3, h4⟩
+      exact ⟨by linarith, by linarith, by linarith, by linarith⟩
+    · rintro ⟨h1, h2, h3, h4⟩
+      exact ⟨by linarith, by linarith, by linarith, by linarith⟩
+
+theorem polyContains_shift (d p : Pt) (vs : List Pt) :
+    Impl.polyContains (vs.map (shiftPt d)) p = Impl.polyContains vs (p.1 - d.1, p.2 - d.2) := by
+  simp only [Impl.polyContains, polyKeep_shift, crossParity_shift, List.length_map]
+
+/-! ### Polygon centre under translation -/
+
+theorem shiftPt_injective (d : Pt) : Function.Injective (shiftPt d) := by
+  intro a b h
+  simp only [shiftPt, Prod.mk.injEq] at h
+  ext <;> linarith [h.1, h.2]
+
+theorem sumList_cons (x : Rat) (xs : List Rat) : sumList (x :: xs) = x + sumList xs := rfl
+
+theorem sumList_shift (d : Rat) (xs : List Rat) :
+    sumList (xs.map (· + d)) = sumList xs + (xs.length : Rat) * d := by
+  induction xs with
+  | nil => simp [sumList]
+  | cons x rest ih =>
+    simp only [List.map_cons, sumList_cons, ih, List.length_cons, Nat.cast_add, Nat.cast_one]
+    ring
+
+theorem polyClosed_shift (d : Pt) (vs : List Pt) : polyClosed (vs.map (shiftPt d)) = polyClosed vs := by
+  rw [Bool.eq_iff_iff]
+  simp only [polyClosed, Bool.and_eq_true, beq_iff_eq, decide_eq_true_eq, List.length_map,
+    List.head?_map, List.getLast?_map]
+  constructor
+  · rintro ⟨h1, h2⟩
+    exact ⟨h1, Option.map_injective (shiftPt_injective d) h2⟩
+  · rintro ⟨h1, h2⟩
+    exact ⟨h1, by rw [h2]⟩
+
+theorem polyCore_shift (d : Pt) (vs : List Pt) : polyCore (vs.map (shiftPt d)) = (polyCore vs).map (shiftPt d) := by
+  simp only [polyCore, polyClosed_shift]
+  split
+  · exact (List.map_dropLast ..).symm
+  · rfl
+
+theorem polyCore_ne_nil (vs : List Pt) (h : vs ≠ []) : polyCore vs ≠ [] := by
+  unfold polyCore
+  split
+  · rename_i hc
+    simp only [polyClosed, Bool.and_eq_true, decide_eq_true_eq] at hc
+    intro hd
+    have := congrArg List.length hd
+    simp only [List.length_dropLast, List.length_nil] at this
+    omega
+  · exact h
+
+theorem polyMean_shift (d : Pt) (vs : List Pt) (h : vs ≠ []) :
+    polyMean (vs.map (shiftPt d)) = shiftPt d (polyMean vs) := by
+  have hn : polyCore vs ≠ [] := polyCore_ne_nil vs h
+  have hlen : ((polyCore vs).length : Rat) ≠ 0 := by
+    have : (polyCore vs).length ≠ 0 := fun h0 => hn (List.length_eq_zero_iff.mp h0)
+    exact_mod_cast this
+  simp only [polyMean, polyCore_shift, List.map_map, List.length_map, shiftPt]
+  have e1 : (fun x : Pt => x.1) ∘ shiftPt d = (· + d.1) ∘ (fun x : Pt => x.1) := by funext x; rfl
+  have e2 : (fun x : Pt => x.2) ∘ shiftPt d = (· + d.2) ∘ (fun x : Pt => x.2) := by funext x; rfl
+  rw [e1, e2, ← List.map_map, ← List.map_map, sumList_shift, sumList_shift]
+  simp only [List.length_map]
+  ext
+  · simp only; field_simp
+  · simp only; field_simp
+
+theorem offsets_shift (d m : Pt) (vs : List Pt) :
+    offsets (shiftPt d m) (vs.map (shiftPt d)) = offsets m vs := by
+  simp only [offsets, List.map_map]
+  apply List.map_congr_left
+  intro v _
+  simp only [Function.comp, shiftPt]
+  ext <;> simp
+
+theorem polyAreaSigned_shift (d : Pt) (vs : List Pt) (h : vs ≠ []) :
+    polyAreaSigned (vs.map (shiftPt d)) = polyAreaSigned vs := by
+  simp only [polyAreaSigned, polyMean_shift d vs h, offsets_shift, polyClosed_shift]
+
+theorem polyCentroid_shift (d : Pt) (vs : List Pt) (h : vs ≠ []) :
+    polyCentroid (vs.map (shiftPt d)) = shiftPt d (polyCentroid vs) := by
+  simp only [polyCentroid, List.length_map, polyMean_shift d vs h, polyCore_shift, offsets_shift,
+    polyAreaSigned_shift d vs h]
+  split
+  · rfl
+  · split
+    · rfl
+    · simp only [shiftPt]
+      ext <;> simp <;> ring
+
+theorem polyCenter_shift (d : Pt) (vs : List Pt) (h : vs ≠ []) :
+    polyCenter (vs.map (shiftPt d)) = shiftPt d (polyCenter vs) := by
+  simp only [polyCenter, polyAreaSigned_shift d vs h, polyMean_shift d vs h, polyCentroid_shift d vs h]
+  split <;> rfl
+
+theorem poly_moveTo_eq (g : Poly) (t : Pt) :
+    (Roi.poly g).moveTo t =
+      .poly { g with vs := g.vs.map (shiftPt (t.1 - (polyCenter g.vs).1, t.2 - (polyCenter g.vs).2)) } := rfl
+
+/-! ### Polygon: the bounding-box prefilter never drops an inside point -/
+
+/-- The cross product `(a − p) × (b − p)` decides the Haines comparison. -/
+theorem haines_cross (p a b : Pt) :
+    ((b.1 - p.1) * (a.2 - b.2) ≤ (b.2 - p.2) * (a.1 - b.1)) ↔
+      0 ≤ (a.1 - p.1) * (b.2 - p.2) - (a.2 - p.2) * (b.1 - p.1) := by
+  constructor <;> intro h <;> nlinarith
+
+theorem edgeCross_eq_true_iff (p a b : Pt) :
+    edgeCross p a b = true ↔
+      (((p.2 ≤ a.2) ∧ ¬ (p.2 ≤ b.2)) ∨ (¬ (p.2 ≤ a.2) ∧ (p.2 ≤ b.2))) ∧
+      ((0 ≤ (a.1 - p.1) * (b.2 - p.2) - (a.2 - p.2) * (b.1 - p.1)) ↔ p.2 ≤ b.2) := by
+  unfold edgeCross
+  have hc := haines_cross p a b
+  by_cases h1 : p.2 ≤ a.2 <;> by_cases h2 : p.2 ≤ b.2 <;>
+    by_cases h3 : (b.1 - p.1) * (a.2 - b.2) ≤ (b.2 - p.2) * (a.1 - b.1) <;> simp [h1, h2, h3, ← hc]
+
+/-- No crossing when both end points are strictly below, weakly above, or strictly left of `p`. -/
+theorem edgeCross_false_of_below (p a b : Pt) (ha : a.2 < p.2) (hb : b.2 < p.2) : edgeCross p a b = false := by
+  rw [← Bool.not_eq_true, edgeCross_eq_true_iff]
+  rintro ⟨h | h, -⟩
+  · exact absurd h.1 (not_le.2 ha)
+  · exact absurd h.2 (not_le.2 hb)
+
+theorem edgeCross_false_of_above (p a b : Pt) (ha : p.2 ≤ a.2) (hb : p.2 ≤ b.2) : edgeCross p a b = false := by
+  rw [← Bool.not_eq_true, edgeCross_eq_true_iff]
+  rintro ⟨h | h, -⟩
+  · exact h.2 hb
+  · exact h.1 ha
+
+theorem edgeCross_false_of_left (p a b : Pt) (ha : a.1 < p.1) (hb : b.1 < p.1) : edgeCross p a b = false := by
+  rw [← Bool.not_eq_true, edgeCross_eq_true_iff]
+  rintro ⟨h | h, hx⟩
+  · -- a above, b below: the cross product is positive, yet must be negative
+    have h2 : b.2 < p.2 := not_le.1 h.2
+    have : 0 ≤ (a.1 - p.1) * (b.2 - p.2) - (a.2 - p.2) * (b.1 - p.1) := by
+      nlinarith [mul_pos (sub_pos.2 ha) (sub_pos.2 h2), mul_nonneg (sub_nonneg.2 h.1) (sub_pos.2 hb).le]
+    exact h.2 (hx.1 this)
+  · have h1 : a.2 < p.2 := not_le.1 h.1
+    have : ¬ (0 ≤ (a.1 - p.1) * (b.2 - p.2) - (a.2 - p.2) * (b.1 - p.1)) := by
+      rw [not_le]
+      nlinarith [mul_pos (sub_pos.2 h1) (sub_pos.2 hb), mul_nonneg (sub_nonneg.2 h.2) (sub_pos.2 ha).le]
+    exact this (hx.2 h.2)
+
+/-- Strictly to the right of `p` an edge crosses the ray iff its end points are on different sides. -/
+theorem edgeCross_of_right (p a b : Pt) (ha : p.1 < a.1) (hb : p.1 < b.1) :
+    edgeCross p a b = (decide (p.2 ≤ a.2) != decide (p.2 ≤ b.2)) := by
+  rw [Bool.eq_iff_iff, edgeCross_eq_true_iff]
+  simp only [bne_iff_ne, ne_eq, decide_eq_decide]
+  constructor
+  · rintro ⟨h | h, -⟩
+    · intro hi; exact h.2 (hi.1 h.1)
+    · intro hi; exact h.1 (hi.2 h.2)
+  · intro hne
+    by_cases h1 : p.2 ≤ a.2
+    · have h2 : ¬ p.2 ≤ b.2 := fun h2 => hne ⟨fun _ => h2, fun _ => h1⟩
+      refine ⟨Or.inl ⟨h1, h2⟩, ?_⟩
+      have hb2 : b.2 < p.2 := not_le.1 h2
+      constructor
+      · intro hx; exfalso
+        nlinarith [mul_pos (sub_pos.2 ha) (sub_pos.2 hb2), mul_nonneg (sub_nonneg.2 h1) (sub_pos.2 hb).le]
+      · intro h; exact absurd h h2
+    · have h2 : p.2 ≤ b.2 := by
+        by_contra h2; exact hne ⟨fun h => absurd h h1, fun h => absurd h h2⟩
+      refine ⟨Or.inr ⟨h1, h2⟩, ?_⟩
+      have ha2 : a.2 < p.2 := not_le.1 h1
+      constructor
+      · intro _; exact h2
+      · intro _
+        nlinarith [mul_pos (sub_pos.2 ha2) (sub_pos.2 hb), mul_nonneg (sub_nonneg.2 h2) (sub_pos.2 ha).le]
+
+theorem crossPath_false_of_all (p : Pt) (Q : Pt → Prop)
+    (hQ : ∀ a b, Q a → Q b → edgeCross p a b = false) (a : Pt) (vs : List Pt)
+    (ha : Q a) (hvs : ∀ v ∈ vs, Q v) : crossPath p a vs = false := by
+  induction vs generalizing a with
+  | nil => rfl
+  | cons b rest ih =>
+    have hb : Q b := hvs b (List.mem_cons_self ..)
+    simp only [crossPath, hQ a b ha hb, ih b hb (fun v hv => hvs v (List.mem_cons_of_mem _ hv))]
+    rfl
+
+/-- Along a path strictly to the right of `p` the parity only depends on the two end points. -/
+theorem crossPath_of_right (p a : Pt) (vs : List Pt) (ha : p.1 < a.1) (hvs : ∀ v ∈ vs, p.1 < v.1) :
+    crossPath p a vs = (decide (p.2 ≤ a.2) != decide (p.2 ≤ (vs.getLast?.getD a).2)) := by
+  induction vs generalizing a with
+  | nil =>
+    simp only [crossPath, List.getLast?_nil, Option.getD_none]
+    exact (bne_self_eq_false (decide (p.2 ≤ a.2))).symm
+  | cons b rest ih =>
+    have hb : p.1 < b.1 := hvs b (List.mem_cons_self ..)
+    rw [crossPath, edgeCross_of_right p a b ha hb, ih b hb (fun v hv => hvs v (List.mem_cons_of_mem _ hv))]
+    have : ((b :: rest).getLast?.getD a) = (rest.getLast?.getD b) := by
+      cases rest with
+      | nil => rfl
+      | cons c r =>
+        rw [List.getLast?_cons_cons]
+        rcases h : (c :: r).getLast? with _ | x
+        · simp at h
+        · rfl
+    rw [this]
+    cases decide (p.2 ≤ a.2) <;> cases decide (p.2 ≤ b.2) <;> cases decide (p.2 ≤ (rest.getLast?.getD b).2) <;> rfl
+
+theorem minList_le (x : Rat) (xs : List Rat) : minList x xs ≤ x ∧ ∀ y ∈ xs, minList x xs ≤ y := by
+  induction xs generalizing x with
+  | nil => exact ⟨le_refl _, fun y hy => absurd hy (List.not_mem_nil)⟩
+  | cons z rest ih =>
+    obtain ⟨h1, h2⟩ := ih (rmin x z)
+    have e : minList x (z :: rest) = minList (rmin x z) rest := rfl
+    rw [e]
+    refine ⟨le_trans h1 (rmin_le_left x z), ?_⟩
+    intro y hy
+    rcases List.mem_cons.1 hy with rfl | hy
+    · exact le_trans h1 (rmin_le_right x y)
+    · exact h2 y hy
+
+theorem le_maxList (x : Rat) (xs : List Rat) : x ≤ maxList x xs ∧ ∀ y ∈ xs, y ≤ maxList x xs := by
+  induction xs generalizing x with
+  | nil => exact ⟨le_refl _, fun y hy => absurd hy (List.not_mem_nil)⟩
+  | cons z rest ih =>
+    obtain ⟨h1, h2⟩ := ih (rmax x z)
+    have e : maxList x (z :: rest) = maxList (rmax x z) rest := rfl
+    rw [e]
+    refine ⟨le_trans (le_rmax_left x z) h1, ?_⟩
+    intro y hy
+    rcases List.mem_cons.1 hy with rfl | hy
+    · exact le_trans (le_rmax_right x y) h1
+    · exact h2 y hy
+
+/-- **The bounding-box prefilter of `points_inside_poly` never drops a point the even-odd rule
+puts inside**, for every polygon (open, closed, concave, self-intersecting). -/
+theorem polyKeep_of_crossParity (vs : List Pt) (p : Pt) (h : crossParity vs p = true) :
+    polyKeep vs p = true := by
+  cases vs with
+  | nil => simp [crossParity] at h
+  | cons v rest =>
+    simp only [crossParity] at h
+    have hmem : ∀ (Q : Pt → Prop), Q v → (∀ w ∈ rest, Q w) → ∀ w ∈ rest ++ [v], Q w := by
+      intro Q hv hr w hw
+      rcases List.mem_append.1 hw with hw | hw
+      · exact hr w hw
+      · rw [List.mem_singleton.1 hw]; exact hv
+    obtain ⟨mx0, mx⟩ := minList_le v.1 (rest.map (·.1))
+    obtain ⟨Mx0, Mx⟩ := le_maxList v.1 (rest.map (·.1))
+    obtain ⟨my0, my⟩ := minList_le v.2 (rest.map (·.2))
+    obtain ⟨My0, My⟩ := le_maxList v.2 (rest.map (·.2))
+    simp only [polyKeep, polyBBox, inBox_iff]
+    refine ⟨?_, ?_, ?_, ?_⟩
+    · -- p left of every vertex: flag changes around a closed path cancel
+      by_contra hc
+      rw [not_le] at hc
+      have hv : p.1 < v.1 := lt_of_lt_of_le hc mx0
+      have hr : ∀ w ∈ rest, p.1 < w.1 := fun w hw =>
+        lt_of_lt_of_le hc (mx w.1 (List.mem_map_of_mem hw))
+      rw [crossPath_of_right p v _ hv (hmem (fun w => p.1 < w.1) hv hr)] at h
+      simp at h
+    · by_contra hc
+      rw [not_le] at hc
+      have hv : v.1 < p.1 := lt_of_le_of_lt Mx0 hc
+      have hr : ∀ w ∈ rest, w.1 < p.1 := fun w hw =>
+        lt_of_le_of_lt (Mx w.1 (List.mem_map_of_mem hw)) hc
+      rw [crossPath_false_of_all p (fun w => w.1 < p.1) (fun a b => edgeCross_false_of_left p a b) v _ hv
+        (hmem (fun w => w.1 < p.1) hv hr)] at h
+      exact Bool.false_ne_true h
+    · by_contra hc
+      rw [not_le] at hc
+      have hv : p.2 ≤ v.2 := (lt_of_lt_of_le hc my0).le
+      have hr : ∀ w ∈ rest, p.2 ≤ w.2 := fun w hw =>
+        (lt_of_lt_of_le hc (my w.2 (List.mem_map_of_mem hw))).le
+      rw [crossPath_false_of_all p (fun w => p.2 ≤ w.2) (fun a b => edgeCross_false_of_above p a b) v _ hv
+        (hmem (fun w => p.2 ≤ w.2) hv hr)] at h
+      exact Bool.false_ne_true h
+    · by_contra hc
+      rw [not_le] at hc
+      have hv : v.2 < p.2 := lt_of_le_of_lt My0 hc
+      have hr : ∀ w ∈ rest, w.2 < p.2 := fun w hw =>
+        lt_of_le_of_lt (My w.2 (List.mem_map_of_mem hw)) hc
+      rw [crossPath_false_of_all p (fun w => w.2 < p.2) (fun a b => edgeCross_false_of_below p a b) v _ hv
+        (hmem (fun w => w.2 < p.2) hv hr)] at h
+      exact Bool.false_ne_true h
+
+/-- With at least three vertices the coded polygon test is the even-odd rule. -/
+theorem polyContains_eq_spec (vs : List Pt) (p : Pt) (h3 : 3 ≤ vs.length) :
+    Impl.polyContains vs p = Spec.polyContains vs p := by
+  simp only [Impl.polyContains, Spec.polyContains, h3, decide_true, Bool.and_true]
+  cases hc : crossParity vs p with
+  | false => simp
+  | true => simp [polyKeep_of_crossParity vs p hc]
+
 end GlueVerif.Lemmas.Geometry
